@@ -195,9 +195,32 @@ def coq_phase(ph):
             + sched + ", " + cbool(ph["logging"]) + ")")
 
 
+# model variant of the directory store: 1 = pinned (`endswith` retirement, substring __contains__), 2 = repaired
+# (exact-name retirement); chosen by probe_store_variant() from the behaviour of the implementation under test
+DIR_KIND = ["1"]
+
+
+def probe_store_variant():
+    """behavioural probe (fail-closed): the suffix-identifier witness ba.fa (fails) / a.fa (completes), serial"""
+    specs = std_pipeline(1)
+    apply_pattern(specs, "ba.fa", (0, ["raise", "boom"]))
+    case = dict(block="probe", phases=[phase(specs, [sinput("ba.fa"), sinput("a.fa")], None)])
+    r = core.run_impl_lines("c14_impl.py", [case])[0]
+    if isinstance(r, dict) or not r or r[0].get("exc") is not None or [d[0] for d in r[0]["done"]] != ["a.json"]:
+        raise core.CheckError(f"store variant probe gave an unexpected observation: {str(r)[:400]}")
+    names = [n[0] for n in r[0]["nc"]]
+    if names == ["ba.json"]:
+        DIR_KIND[0] = "2"
+        return "repaired: exact-name retirement (Model.Apps.dir_kind_fixed)"
+    if names == []:
+        DIR_KIND[0] = "1"
+        return "pinned: endswith retirement (Model.Apps.dir_kind)"
+    raise core.CheckError(f"store variant probe gave an unexpected observation: {str(r)[:400]}")
+
+
 def coq_case(c):
-    """DataStoreDirectory(suffix=json)+write_json -> dir_kind; DataStoreSqlite+write_db -> the plain dictionary"""
-    kind = "0" if c.get("store") == "sqlite" else "1"
+    """DataStoreDirectory(suffix=json)+write_json -> dir_kind / dir_kind_fixed; DataStoreSqlite+write_db -> the plain dictionary"""
+    kind = "0" if c.get("store") == "sqlite" else DIR_KIND[0]
     return "(" + kind + ", [" + ";".join(coq_phase(p) for p in c["phases"]) + "])"
 
 
@@ -385,12 +408,21 @@ TAME = ["a.fa", "bb.fa", "c3.fa", "dd4.fasta", "e5.fa.gz", "d/f6.fa", "g7.phylip
 MEMBERS = ["a.fa", "bb.fa", "c3.fa", "h8.fa", "k9.fa", "m10.fa", "x_1.fa", "y-2.fa"]
 
 
-def exhaustive_core(n, ngeneric, patterns, with_perms=True, logging=False, members=False):
-    """every outcome pattern per input x every completion order (+ serial)"""
+def exhaustive_core(n, ngeneric, patterns, with_perms=True, logging=False, members=False, rng=None, max_perms=None,
+                    max_pats=None):
+    """every outcome pattern per input x every completion order (+ serial); with [rng]: a sample of [max_pats] pattern
+    tuples and, per tuple, of [max_perms] completion orders (the quick tier; the thorough tier enumerates)"""
     cases = []
     names = (MEMBERS if members else TAME)[:n]
-    for pats in itertools.product(patterns, repeat=n):
-        scheds = [None] + ([list(p) for p in itertools.permutations(range(n))] if with_perms else [])
+    all_pats = list(itertools.product(patterns, repeat=n))
+    if rng is not None and max_pats is not None and len(all_pats) > max_pats:
+        all_pats = rng.sample(all_pats, max_pats)
+    all_perms = [list(p) for p in itertools.permutations(range(n))] if with_perms else []
+    for pats in all_pats:
+        perms = all_perms
+        if rng is not None and max_perms is not None and len(perms) > max_perms:
+            perms = rng.sample(all_perms, max_perms)
+        scheds = [None] + perms
         for sched in scheds:
             specs = std_pipeline(ngeneric)
             if members:
@@ -411,6 +443,8 @@ def hazard_cases(tier):
     for names, blk in ((["ba.fa", "a.fa"], "suffix-ids"), (["cba.fa", "ba.fa", "a.fa"], "suffix-ids"),
                        (["g.v1.fa", "g.v2.fa"], "dotted-ids"), (["g.v1.fa", "g.fa"], "dotted-ids"), (["a.b.fa.gz"], "dotted-ids")):
         n = len(names)
+        if tier == "quick" and n == 3:
+            continue  # the three-identifier chain is enumerated in the thorough tier only
         for pats in itertools.product(fails, repeat=n):
             for sched in [None] + [list(p) for p in itertools.permutations(range(n))]:
                 specs = std_pipeline(1)
@@ -610,11 +644,13 @@ def build_cases(tier, rng):
         for p in sorted(cdir.glob("*.json")):
             cases.append(json.loads(p.read_text()))
     if tier == "quick":
-        cases += exhaustive_core(3, 2, PATTERNS_CORE[:6])          # 6^3 x 7 orders
-        cases += exhaustive_core(2, 2, PATTERNS_CORE)              # 10^2 x 3
-        cases += exhaustive_core(4, 1, PATTERNS_CORE[:2])          # 2^4 x 25 orders
-        cases += exhaustive_core(3, 1, PATTERNS_CORE[:4], members=True)
-        nrand = 400
+        # budget: <= ~100 s uncontended.  All completion orders for <= 3 inputs, a sample of orders for 4 and 5 inputs
+        cases += exhaustive_core(3, 2, PATTERNS_CORE[:4])                                  # 4^3 x 7 orders
+        cases += exhaustive_core(2, 2, PATTERNS_CORE)                                      # 10^2 x 3 orders
+        cases += exhaustive_core(4, 1, PATTERNS_CORE[:2], rng=rng, max_perms=5)            # 2^4 x (serial + 5 of 24)
+        cases += exhaustive_core(5, 1, PATTERNS_CORE[:2], rng=rng, max_perms=2, max_pats=16)  # 16 of 2^5 x (serial + 2 of 120)
+        cases += exhaustive_core(3, 1, PATTERNS_CORE[:3], members=True)                    # 3^3 x 7 orders (+ store input)
+        nrand = 140
     else:
         cases += exhaustive_core(3, 2, PATTERNS_CORE)              # 10^3 x 7
         cases += exhaustive_core(4, 1, PATTERNS_CORE[:4])          # 4^4 x 25
@@ -625,7 +661,16 @@ def build_cases(tier, rng):
     cases += hazard_cases(tier)
     cases += [random_case(rng, tier) for _ in range(nrand)]
     # the same machinery over write_db + DataStoreSqlite
-    sq = exhaustive_core(3, 1, PATTERNS_CORE[:4]) + hazard_cases(tier) + [random_case(rng, tier) for _ in range(nrand // 4)]
+    if tier == "quick":
+        hz = hazard_cases(tier)
+        keep, seen = [], {}
+        for c in hz:   # every block represented: the first 12 cases of each
+            seen[c["block"]] = seen.get(c["block"], 0) + 1
+            if seen[c["block"]] <= 12:
+                keep.append(c)
+        sq = exhaustive_core(2, 1, PATTERNS_CORE[:4]) + keep + [random_case(rng, tier) for _ in range(40)]
+    else:
+        sq = exhaustive_core(3, 1, PATTERNS_CORE[:4]) + hazard_cases(tier) + [random_case(rng, tier) for _ in range(nrand // 4)]
     for c in sq:
         c["store"] = "sqlite"
         c["block"] = "sqlite:" + c["block"]
@@ -650,8 +695,9 @@ def run(tier: str, seed: int) -> int:
         "inputs are truthy and, when they carry their own .source, every stage preserves it",
     ]
     proof_broken = bool(pr["problems"])
+    rep.coverage["store_variant"] = probe_store_variant()
     cases = build_cases(tier, rng)
-    real_cases = real_parallel_cases(rng, 24) if tier == "thorough" else real_parallel_cases(rng, 2)
+    real_cases = real_parallel_cases(rng, 24) if tier == "thorough" else real_parallel_cases(rng, 1)
     impl = core.run_impl_sharded("c14_impl.py", cases)
     impl_real = core.run_impl_lines("c14_impl.py", real_cases) if real_cases else []
     model = None
@@ -679,13 +725,16 @@ def run(tier: str, seed: int) -> int:
     covered = uncovered = 0
     try:
         good = core.coq_eval(PROP, ["Model.Apps", "Spec.AppsSpec"],
-                             "fun p => VB (good_kind_b (if (fst p =? 0) then dict_kind else dir_kind) (snd p))",
-                             ["(" + ("0" if k[0] == "sqlite" else "1") + ", [" + ";".join(zstr(x) for x in k[1]) + "])" for k in keys],
+                             "fun p => VB (good_kind_b (if (fst p =? 0) then dict_kind else if (fst p =? 2) then dir_kind_fixed "
+                             "else dir_kind) (snd p))",
+                             ["(" + ("0" if k[0] == "sqlite" else DIR_KIND[0]) + ", [" + ";".join(zstr(x) for x in k[1]) + "])" for k in keys],
                              "Z * list (list Z)", shard=200, tag="g")
     except core.CheckError as e:
         good = [None] * len(keys)
         rep.notes.append(f"good_kind_b not evaluated: {str(e)[:200]}")
     id_hz = {"dotted-ids", "suffix-ids", "suffix-in-id", "odd-name"}
+    if DIR_KIND[0] == "2":
+        id_hz -= {"suffix-ids", "suffix-in-id"}   # inside the theorems for the repaired store
     for k, g in zip(keys, good):
         for c in idsets[k]:
             py_plain = not (set(hazards(c)) & id_hz)
